@@ -19,7 +19,7 @@ e == Trace[l]
 Act ==
   \/ (e.act = "DoConstruct" /\ DoConstruct(e.arg))
   \/ (e.act = "DoCrash" /\ DoCrash(e.arg))
-  \/ (e.act = "DoCompile" /\ DoCompile)
+  \/ (e.act = "DoCompile" /\ DoCompile(e.arg))
   \/ (e.act = "DoEdit" /\ DoEdit(e.arg))
   \/ (e.act = "DoTouch" /\ DoTouch(e.arg))
 Matches == /\ e.reply = Reply(last')
